@@ -62,16 +62,36 @@ BIG_BINS = False  # set by the harness in the thorough tier
 DINUC = "DINUC"  # not in available_models(): built from substitution_model.TimeReversibleDinucleotide
 
 
+OPT = "OPT"  # a word model built directly from a substitution_model class with explicit constructor options (c02_options.py)
+
+
 def kind_of(name):
     if name == DINUC:
         return "dinucleotide"
     return model_kinds()[name]
 
 
+def _option_model(cls, mprob_model, motifs=None, gc=None):
+    from cogent3.evolve import substitution_model
+
+    kw = dict(mprob_model=mprob_model, recode_gaps=True, model_gaps=False, predicates={"kappa": "transition"})
+    if motifs is not None:
+        kw["motifs"] = list(motifs)
+    if cls == "codon":
+        kw["predicates"]["omega"] = "replacement"
+        return substitution_model.TimeReversibleCodon(gc=gc, **kw)
+    if cls.startswith("dinuc"):
+        return substitution_model.TimeReversibleDinucleotide(**kw)
+    return substitution_model.TimeReversibleTrinucleotide(**kw)
+
+
 def get_sm(name, **kw):
+    kw = {k: (tuple(v) if isinstance(v, list) else v) for k, v in kw.items()}
     key = (name, tuple(sorted(kw.items())))
     if key not in _MODEL_CACHE:
-        if name == DINUC:
+        if name == OPT:
+            _MODEL_CACHE[key] = _option_model(**kw)
+        elif name == DINUC:
             from cogent3.evolve import substitution_model
             from cogent3.evolve.predicate import MotifChange
 
